@@ -197,3 +197,36 @@ def finish(pid, res, tier, t0, explanation, trusted, assumptions, facts_info, fx
             print("VIOLATION property=%s replay=%s" % (pid, rp))
         return 1
     return 0
+
+
+def get_corpus_facts():
+    """Facts of /verif/corpus compiled against /repo's current clap + clap_derive (E3)."""
+    os.makedirs(CACHE, exist_ok=True)
+    h = hashlib.sha256()
+    h.update(repo_hash().encode())
+    for root, dirs, files in os.walk(os.path.join(VERIF, "corpus")):
+        dirs[:] = sorted(d for d in dirs if d not in ("target",))
+        for f in sorted(files):
+            if f == "Cargo.lock":
+                continue
+            h.update(f.encode())
+            h.update(open(os.path.join(root, f), "rb").read())
+    h.update(open(os.path.join(VERIF, "bin", "mkcorpusfacts"), "rb").read())
+    key = h.hexdigest()[:24]
+    d = os.path.join(CACHE, "%s-corpus" % key)
+    lock = open(os.path.join(CACHE, "lock-corpus"), "w")
+    fcntl.flock(lock, fcntl.LOCK_EX)
+    try:
+        if not os.path.exists(os.path.join(d, "DONE")):
+            for e in os.listdir(CACHE):
+                if e.endswith("-corpus") and os.path.isdir(os.path.join(CACHE, e)):
+                    shutil.rmtree(os.path.join(CACHE, e), ignore_errors=True)
+            r = subprocess.run([os.path.join(VERIF, "bin", "mkcorpusfacts"), d], stdout=subprocess.PIPE, stderr=subprocess.STDOUT, text=True)
+            if r.returncode != 0:
+                print("ERROR corpus-extraction-failed (clap_derive output for the corpus does not compile?)")
+                print(r.stdout[-4000:])
+                sys.exit(2)
+            open(os.path.join(d, "DONE"), "w").write(key)
+    finally:
+        fcntl.flock(lock, fcntl.LOCK_UN)
+    return F.load_facts(d, "corpus")
